@@ -39,6 +39,38 @@ def main():
         rc = mod.replay(obj)
         sys.exit(rc)
     os.environ['VERIF_TIER_ACTIVE'] = args.tier
+    if os.environ.get('VERIF_NO_FORK') != '1':
+        # The implementation's solver (ECOS) occasionally dies with a segmentation fault, not reproducibly.  The run therefore
+        # happens in a child process; a child killed by a signal is started again (same seed), up to three times.
+        last_sig = None
+        for attempt in range(3):
+            sys.stdout.flush()
+            pid = os.fork()
+            if pid == 0:
+                os.environ['VERIF_NO_FORK'] = '1'
+                try:
+                    run_once(prop, mod, args)
+                finally:
+                    sys.stdout.flush()
+                    os._exit(3)
+            _, status = os.waitpid(pid, 0)
+            if os.WIFEXITED(status):
+                sys.exit(os.WEXITSTATUS(status))
+            last_sig = os.WTERMSIG(status)
+            print('CHILD-CRASH %s: the check process was killed by signal %s (attempt %d); starting it again' % (prop, last_sig, attempt + 1))
+        # three crashes in a row: the implementation (or the solver on the data it is now given) can no longer be run
+        ctx = common.Ctx(prop, args.tier, args.seed)
+        ctx.violations.append((
+            'proof obligation / correspondence no longer checks; the check process was killed by signal %s three times in a row '
+            'while running the implementation' % last_sig,
+            {'no_failing_input_found': True, 'no_longer_checks': ['the implementation / its solver crashes the process (signal %s)' % last_sig],
+             'first_disagreements': []}))
+        sys.exit(ctx.finish(level='proof', rule='(run aborted: the check process crashed three times)', trusted=['harness/vcheck.py'],
+                            assumptions=[]))
+    run_once(prop, mod, args)
+
+
+def run_once(prop, mod, args):
     ctx = common.Ctx(prop, args.tier, args.seed)
     try:
         rc = mod.run(ctx)
@@ -59,7 +91,8 @@ def main():
                  'traceback': tb[-3000:], 'first_disagreements': ctx.disagreements[:3]}))
         rc = ctx.finish(level='proof', rule='(run aborted by an exception in the correspondence harness)',
                         trusted=['harness/vcheck.py'], assumptions=[])
-    sys.exit(rc)
+    sys.stdout.flush()
+    os._exit(rc if isinstance(rc, int) else 1)
 
 
 if __name__ == '__main__':
